@@ -30,15 +30,15 @@ ASSUMPTIONS = ['a listing unit wider than one byte is the little- or big-endian 
 
 GEN = {
     'g_macinc': ('\tcpu z80\nm\tmacro x\n\tld a,x\n\tdb x,x,x,x,x,x,x,x,x\n\tendm\n\torg 100h\n\tm 1\n\tinclude "i2.inc"\n\tphase 8000h\nl1:\tjp l1\n\tdephase\n\trept 2\n\tnop\n\tendm\n'
-                 '\tdb 1,2,3,4,5,6,7,8,9,10\nval\tequ 1234h\n\tshared val,l1\n', {'i2.inc': '\tnop\n\tm 2\n'}),
+                 '\tdb 1,2,3,4,5,6,7,8,9,10\nval\tequ 1234h\nhi\tequ 0c0deh\nhb\tequ 0a0h\n\tshared val,l1,hi,hb\n', {'i2.inc': '\tnop\n\tm 2\n'}),
     'g_segs': ('\tcpu 8051\n\torg 30h\nstart:\tmov a,#1\n\tsegment data\n\torg 40h\nbuf:\tdb ?\n\tsegment xdata\n\torg 1000h\nxb:\tdb 1,2,3\n\tsegment code\n\tljmp start\n\tshared start,buf,xb\n'
                'bi\tbit 50\n\tjnb bi,$\n\tsegment bitdata\n\torg 51\nb2:\tdb ?\n\tsegment code\n', {}),
     'g_pic': ('\tcpu 16c84\n\torg 10\nl:\tmovlw 5\n\tdata 1,2,3,4,5,6,7,8,9\n\tgoto l\ncnt\tequ 77\n\tshared cnt,l\n', {}),
-    'g_pad': ('\tcpu 68000\n\torg $1000\n\tdc.b 1\nw:\tdc.w $1234\n\tdc.b 1,2,3\nl:\tdc.l $11223344,w\n\tmove.l #l,d0\n\tshared w,l\n', {}),
+    'g_pad': ('\tcpu 68000\n\torg $1000\n\tdc.b 1\nw:\tdc.w $1234\n\tdc.b 1,2,3\nl:\tdc.l $11223344,w\n\tmove.l #l,d0\nhi\tequ $c0de\n\tshared w,l,hi\n', {}),
     'g_phase2': ('\tcpu z80\n\torg 100h\n\tdb 1\n\tphase 8000h\np1:\tdb 2,3\n\tphase 9000h\np2:\tdb 4\n\tdephase\np3:\tdb 5\n\tdephase\np4:\tdb 6\n\tshared p1,p2,p3,p4\n', {}),
     'g_c30': ('\tcpu 320c30\n\torg 100h\nx:\tword 1,2,3\n\tldi r0,r1\n\tshared x\n', {}),
 }
-SHARE = {'c': ['-c'], 'p': ['-p'], 'a': ['-a']}
+SHARE = {'c': ['-c'], 'p': ['-p'], 'a': ['-a'], 'ch': ['-c', '-h'], 'ph': ['-p', '-h'], 'ah': ['-a', '-h']}      # -h: hexadecimal digits in lower case
 
 
 def sources():
@@ -52,7 +52,7 @@ def subspaces(tier):
 
     def cfgs():
         for t in ts:
-            for sh in ('c', 'p', 'a'):
+            for sh in ('c', 'p', 'a', 'ch', 'ph', 'ah'):
                 yield {'t': t, 'radix': 16, 'share': sh}
     subs.append(('radix16 x share formats', cfgs()))
     rads = [2, 8, 10, 36] if q else [r for r in range(2, 37) if r != 16]
@@ -299,6 +299,12 @@ def evaluate(case):
             return core.R(False, 'symbol-value', 'symbols/listing-vs-map', 'symbol %s: listing %x, MAP %x on %s' % (s, symlst[s], symmap[s], desc))
     sh = (core.get('src/' + t + '.h') or core.get('src/' + t + '.inc') or core.get('src/' + t + '.pas') or b'').decode('latin-1')
     nshare = 0
+    if 'a' in case['share']:
+        # the assembler-format file is meant to be INCLUDEd: every value must be a number in the target's own syntax (a hexadecimal
+        # constant with H suffix starts with a digit, otherwise it is a symbol name)
+        for m in re.finditer(r'^(\w+)\s+(?:equ|=|set)\s+(\S+)', sh, re.M | re.I):
+            if not re.fullmatch(r'\$[0-9A-Fa-f]+|0x[0-9A-Fa-f]+|[0-9][0-9A-Fa-f]*[hH]|\d+|[0-7]+[oOqQ]|[01]+[bB]|%[01]+|@[0-7]+', m.group(2)):
+                return core.R(False, 'share-value', 'symbols/share-file-not-a-number', 'share file gives %s the value "%s", which is not a number on %s' % (m.group(1), m.group(2), desc))
     for m in re.finditer(r'(?:#define\s+(\w+)\s+(0x[0-9A-Fa-f]+|\d+)|^(\w+)\s*=\s*(\$[0-9A-Fa-f]+|\d+);|^(\w+)\s+(?:equ|=|set)\s+(\$[0-9A-Fa-f]+|0x[0-9A-Fa-f]+|[0-9A-Fa-f]+h|\d+))', sh, re.M | re.I):
         name = (m.group(1) or m.group(3) or m.group(5)).upper()
         txt = m.group(2) or m.group(4) or m.group(6)
